@@ -99,6 +99,13 @@ func (h *Hub) HandleShipHandshakeStateUpdate(ski string, state model.ShipState) 
 		// acting upon the new state is safe
 		go func() {
 			<-time.After(time.Millisecond * 500)
+
+			// all updates wait the same time and their goroutines are scheduled in any order: only report
+			// the detail if it is still the current one, so that the last update reported is the current state
+			// and no outdated state is reported after a newer one (intermediate states may be skipped)
+			if service.ConnectionStateDetail() != pairingDetail {
+				return
+			}
 			h.hubReader.ServicePairingDetailUpdate(ski, pairingDetail)
 		}()
 	}
